@@ -20,6 +20,19 @@ CLAIMED = {
         'note': TB + ' Does not decide value-level equalities (hash equality of rule-equal positions, FEN round trip of counters).',
         'technique': 'custom static analysis: write-set/effect analysis, colour-mirror and sibling agreement on CFG regions, dominance-based save/restore and pairing, constant evaluation over the material polytope',
     },
+    'C03': {
+        'text': 'Clause-limited static decision (level "other"): (1) provenance: every definition of the move iterativeDeepening returns is an '
+                'element of the root list, getRootMoves only copies (a subset of) its input and always includes one move, the null move '
+                'is returned exactly for an empty list; (2) the root list handed to the search thread is generated, legality-filtered and '
+                'restricted to the searchmoves of this go; (3) a move read from a transposition-table entry (10 sites) is untrusted and, '
+                'by a path- and flag-sensitive typestate, reaches makeMove / isLegal / givesCheck / SEE / move printing / a PV / the '
+                'ponder-move result only after it was found in a generated move list; (5) the tablebase PV extension truncates the PV at '
+                'the number of moves it replayed. Right level: legality of the answer in every configuration follows from where the '
+                'answer can come from - a provenance/typestate fact that holds for all positions, limits and options at once.',
+        'design_ref': 'DESIGN.md section 2, C03',
+        'note': TB + ' Assumes the legal move generator is correct (C01). Does not decide score ranges or MultiPV distinctness.',
+        'technique': 'custom static analysis: reaching-definition provenance, must-precede dominance, flag-sensitive untrusted-value typestate, index agreement',
+    },
     'C05': {
         'text': 'Clause-limited static decision (level "other"): (1) null typestate of the lazily created engine object and of the '
                 'shared Search pointer for every command order (class-invariant induction over all methods); (2) no exception type '
